@@ -1600,6 +1600,12 @@ def _slice_obligation(ctx, v, lo, hi):
         inner = strip_refs(t)
         if inner[0] == "array":
             n = inner[2]
+    if n is None:
+        from .sym import seq_len
+        core = v
+        while core[0] in ("deref", "copied", "refv"):
+            core = core[1]
+        n = seq_len(core, eng.lens)
     if lo[0] == "int" and (hi is None or hi[0] == "int") and isinstance(n, int) and 0 <= lo[1] <= (n if hi is None else hi[1]) <= n:
         return
     eng.obligations.append({
@@ -1613,6 +1619,8 @@ def m_index(ctx, args):
     base = args[0]
     idx = args[1]
     v, through_ref, mr = array_like(ctx, base)
+    while v[0] == "deref" and v[1][0] in ("digest", "array", "repeat", "concat", "copied", "bytes"):
+        v = v[1]            # `digest[a..b]`: a GenericArray derefs to its own bytes
     mutable = ctx.oq.endswith("index_mut") and mr is not None
     if idx[0] == "struct" and idx[1].endswith("Range"):
         lo, hi = idx[3][0], idx[3][1]
